@@ -249,6 +249,64 @@ def body_virtual(sel: str, ni: int, maildir: bool) -> bool:
     return True
 
 
+def _zip_closure_facts():
+    """Concrete (import-time) crawl of the generated archive of C16 through the real handler chain:
+    every local menu line of every directory inside the archive is requested back."""
+    from harness import C16 as c16
+
+    facts = []
+    for d in c16.GEN_DIRS:
+        try:
+            menu = c16._ask("/gen.zip" + d, "menu").decode("utf-8", "surrogateescape")
+        except Exception as e:
+            facts.append((d, "?", "listing raised %r" % e))
+            continue
+        for line in menu.split("\r\n"):
+            f = line.split("\t")
+            if len(f) < 4 or f[0][:1] in ("i", "3") or f[2] != "srv.example":
+                continue
+            sel = f[1]
+            if sel.startswith("URL:") or sel.startswith("/URL:"):
+                continue
+            try:
+                rep = c16._ask(sel, "menu")
+            except Exception as e:
+                facts.append((d, sel, "request raised %r" % e))
+                continue
+            bad = rep.startswith(b"3") and rep.count(b"\r\n") == 1
+            facts.append((d, sel, "error reply %r" % rep[:80] if bad else None))
+    return facts
+
+
+ZIPFACTS = None
+
+
+def body_zip_closure(i: int) -> bool:
+    global ZIPFACTS
+    f = ZIPFACTS[i]
+    hx.reach()
+    hx.require(f[2] is None, "C05:archive-listing-advertises-unservable-selector", lambda: "listing of /gen.zip%s advertises %r: %s" % (f[0], f[1], f[2]))
+    return True
+
+
+def _init_zipfacts():
+    global ZIPFACTS
+    if ZIPFACTS is None:
+        from pygopherd.handlers import ZIP as _zipmod
+        from harness import C16 as c16
+        import shelve as _shelve
+
+        _zipmod.shelve = hx.ns(open=c16._no_shelf)
+        try:
+            ZIPFACTS = _zip_closure_facts()
+        finally:
+            _zipmod.shelve = _shelve
+    return ZIPFACTS
+
+
+_init_zipfacts()
+
+
 def obligations(tier, seed):
     n = 2 if tier == "quick" else 3
     obs = [
@@ -269,6 +327,9 @@ def obligations(tier, seed):
                                "(one decoding, surrogateescape on both sides, WAP prefix / Gemini query prefix / '?' splitting handled consistently)" % (dl.PROTO_NAMES[kind], TYPES[t]),
                           bounds="selector = '/d/' + tail, |tail| <= %d over {a SPACE %% ? # | \" U+DCFF}; name |n| <= 1; with/without search" % n,
                           functions=["protocols.*.renderobjinfo/getrenderstr", "protocols.*.__init__/canhandlerequest/handle", "ProtocolMultiplexer.getProtocol"]))
+    obs.append(Ob(id="C05.7-zip-closure", body="harness.C05:body_zip_closure", sig="i: int", pre=["0 <= i < %d" % len(ZIPFACTS)], timeout=200,
+                  desc="every local link listed for the directories of the generated archive (member names with ? | non-UTF-8 bytes, link chains, sidecars) is served when requested (real handler chain, run at import; index symbolic)",
+                  bounds="%d links of %d archive directories (solver-driven enumeration)" % (len(ZIPFACTS), len(set(f[0] for f in ZIPFACTS))), functions=["handlers.ZIP.ZIPHandler", "handlers.virtual.Virtual.__init__", "HandlerMultiplexer.getHandler"]))
     obs.append(Ob(id="C05.5-virtual-items", body="harness.C05:body_virtual", sig="sel: str, ni: int, maildir: bool", pre=["1 <= len(sel) <= %d" % (3 if tier == "quick" else 4), "0 <= ni <= 5", "sel[0] == '/'"],
                   timeout=300, desc="message selectors advertised by a mailbox/Maildir folder listing parse back (Virtual + MessageHandler) to the same folder and message number",
                   bounds="folder selector |s| <= %d (all characters except ? and |), message numbers {1,2,9,10,99,100}" % (3 if tier == "quick" else 4),
